@@ -406,6 +406,34 @@ def c14_4(ctx):
                       f'{cname} records as its own text exactly what its pattern matched (match.group(0))',
                       f'instruction text argument: {unparse(a)} = {unparse(d) if d is not None else None}'
                       + (' - the whole remaining line: any unparsable tail is silently dropped' if isinstance(d, ast.Name) else ''))
+    # what a factory matches its patterns against is the text it was given (trimmed at most): text that has been rewritten
+    # (case-folded, re-spaced) is not found in the line any more, and the statement loop never gets past it
+    for fq in sorted({q for q, _ in _FACTORY_TEXT}):
+        fn = ctx.repo.func(fq)
+        tp = next((p_ for p_ in fn.param_names if p_ in ('line_str', 'instruction_str', 'instruction')), None)
+        if tp is None:
+            continue
+        ok_txt = {tp, f'{tp}.strip()'}
+        defs_ = {}
+        for n in walk_no_nested(fn.node):
+            if isinstance(n, ast.Assign) and len(n.targets) == 1 and isinstance(n.targets[0], ast.Name):
+                defs_.setdefault(n.targets[0].id, []).append(unparse(n.value))
+        clean = {k for k, v in defs_.items() if len(v) == 1 and v[0] in ok_txt}
+        bad = []
+        if tp in defs_:
+            bad.append(f'{tp} is reassigned: {defs_[tp]}')
+        for k, v in defs_.items():
+            if any(x in ok_txt for x in v) and len(v) > 1:
+                bad.append(f'{k} is reassigned: {v}')
+        for c in ast.walk(fn.node):
+            if isinstance(c, ast.Call) and isinstance(c.func, ast.Attribute) and c.func.attr in ('match', 'search', 'fullmatch', 'factory'):
+                for a in c.args:
+                    t = unparse(a)
+                    if (tp in t or any(k in t for k in clean)) and t not in ok_txt | clean | {f'{k}.strip()' for k in clean}:
+                        if isinstance(a, (ast.Name, ast.Call, ast.Subscript, ast.BinOp)) and not t.startswith(('line_id', 'comment')):
+                            bad.append(f'{unparse(c.func)}(... {t} ...)')
+        ctx.check(not bad, f'consume:factory-matches-given-text:{fn.cls.name if fn.cls else fn.name}', fn.site(),
+                  'the patterns (and the sub-factories) of a line factory are applied to the text it was given, trimmed at most', '; '.join(bad[:3]))
     pl = ctx.repo.func(PL)
     rem = [n for n in walk_no_nested(pl.node) if isinstance(n, ast.Assign) and unparse(n.targets[0]) == 'instruction_str' and 'replace(' in unparse(n.value)]
     ok = len(rem) >= 4 and all(unparse(n.value) == "instruction_str.replace(line_obj.instruction, '', 1).strip()" for n in rem)
@@ -459,11 +487,17 @@ def c14_5(ctx):
         ctx.err('handler:inventory', '-', 'at least 12 handlers found', f'{n}')
 
 
-RULES = [c14_1, c14_2, c14_3, c14_4, c14_5]
+def c14_lines(ctx):
+    """An unknown instruction can only be reported if its line reaches the parser: what is removed from a line is its comment (C18.3)."""
+    from rules.c18 import c18_3
+    c18_3(ctx)
+
+RULES = [c14_1, c14_2, c14_3, c14_4, c14_5, c14_lines]
 
 _E = 'assembler/engine.py'
 _F = 'assembler/line_object/factory.py'
 MUTANTS = [
+    V('c14-directive-keyword-folded', 'assembler/line_object/directive_line/factory.py', "        cleaned_line_str = line_str.strip()\n        if not cleaned_line_str.startswith('.'):\n            return None\n", "        cleaned_line_str = line_str.strip()\n        if not cleaned_line_str.startswith('.'):\n            return None\n        cleaned_line_str = cleaned_line_str[:6].lower() + cleaned_line_str[6:]\n", 'C14.4'),
     V('c14-create-memzone-unanchored', 'assembler/line_object/preprocessor_line/create_memzone.py', "        r'^#create_memzone\\s+({})\\s+({})\\s+({})\\s*$'.format(", "        r'#create_memzone\\s+({})\\s+({})\\s+({})'.format(", 'C14.4'),
     V('c14-ifdef-unanchored', 'assembler/preprocessor/condition.py', "({SYMBOL_PATTERN})\\s*$'", "({SYMBOL_PATTERN})\\b'", 'C14.4'),
     V('c14-no-image-for-empty-program', 'assembler/engine.py', "        if self._generate_binary:\n", "        if self._generate_binary and last_line is not None:\n", 'C14.2'),
